@@ -41,6 +41,65 @@ class MethodMixin:
         def arg(k, want=None):
             return self.ex(args[k], want)
 
+        # ---- characters and strings (Lean `Char`, `String`; a `Chars`/`Peekable<Chars>` is the list of remaining characters)
+        if tag == 'char':
+            if name == 'is_whitespace': return 'Rust.charIsWhitespace %s' % par(get()), BOOL
+            if name == 'is_ascii_digit': return '%s.isDigit' % par(get()), BOOL
+        if tag == 'chars':
+            if name in ('peekable', 'clone'): return get(), rty
+            if name == 'peek': return '%s.head?' % par(get()), ('opt', ('char',))
+            if name == 'next' and pl is not None:
+                if getattr(e, 'as_stmt', False):
+                    pl.set('%s.tail' % par(pl.get()))
+                    return '()', UNIT
+                c = self.tmp('ch')
+                self.emit('let %s := %s.head?' % (c, par(pl.get())))
+                pl._cache = None
+                pl.set('%s.tail' % par(pl.get()))
+                return c, ('opt', ('char',))
+            if name in ('any', 'all'):
+                f, ft = self.fn_arg(args[0], [('char',)], e.line)
+                return '%s.%s %s' % (par(get()), name, par(f)), BOOL
+            if name == 'collect':
+                return 'String.ofList %s' % par(get()), STR
+        if tag == 'str':
+            if name == 'chars': return '%s.toList' % par(get()), ('chars',)
+            if name == 'is_empty': return '%s.isEmpty' % par(get()), BOOL
+            if name == 'len': return '%s.utf8ByteSize' % par(get()), INT('usize')
+            if name == 'as_bytes': return 'Rust.utf8Bytes %s' % par(get()), ('vec', INT('u8'))
+            if name == 'split' and len(args) == 1:
+                c, ct = arg(0)
+                if res(ct) != ('char',): self.fail('str::split is only supported with a char separator', e.line)
+                return 'Rust.strSplit %s %s' % (par(get()), par(c)), ('iter', STR)
+            if name == 'parse' and e.generics and e.generics[0].kind == 'TPath' and e.generics[0].segs[-1][0] in ('u16', 'u32'):
+                k = e.generics[0].segs[-1][0]
+                return 'Rust.parse%s %s' % (k.upper(), par(get())), ('result', INT(k), ('parseerr',))
+            if name == 'retain' and pl is not None:
+                f, ft = self.fn_arg(args[0], [('char',)], e.line)
+                pl.set('Rust.strRetain %s %s' % (par(pl.get()), par(f)))
+                return '()', UNIT
+            if name == 'push' and pl is not None:
+                c, _ = arg(0)
+                pl.set('%s.push %s' % (par(pl.get()), par(c)))
+                return '()', UNIT
+            if name == 'push_str' and pl is not None:
+                c, _ = arg(0)
+                pl.set('%s ++ %s' % (par(pl.get()), par(c)))
+                return '()', UNIT
+            if name == 'contains' and len(args) == 1:
+                c, ct = arg(0)
+                if res(ct) == ('char',): return '%s.toList.contains %s' % (par(get()), par(c)), BOOL
+            if name == 'starts_with' and len(args) == 1:
+                c, ct = arg(0)
+                if res(ct) == STR: return '%s.startsWith %s' % (par(get()), par(c)), BOOL
+        if tag == 'fmtr' and name == 'write_str' and pl is not None:
+            x, _ = arg(0)
+            pl.set('%s ++ %s' % (par(pl.get()), par(x)))
+            return '(Except.ok () : Except Unit Unit)', ('result', UNIT, ('fmterr',))
+        if tag in ('ioerr', 'parseerr', 'utf8err', 'tparam') and name == 'to_string' and not args:
+            return 'toString %s' % par(get()), STR
+        if tag in ('enum', 'bdd') and name == 'to_string' and not args:
+            return self.display_to_string(get(), rty, e.line), STR
         # ---- random number generator = list of recorded coin flips
         if tag == 'rng':
             if name == 'gen_bool' and pl is not None and len(args) == 1 and args[0].kind == 'Lit' and args[0].lit == 'float' \
@@ -98,6 +157,30 @@ class MethodMixin:
             if name == 'unwrap_or':
                 d, dt = arg(0, el)
                 return '%s.getD %s' % (par(get()), par(d)), el
+            if name == 'map' and self.strip(args[0]).kind == 'Closure' and self.closure_has_effects(self.strip(args[0]), [el]):
+                # the closure can panic / needs statements: `match x with | some v => some <body> | none => none` as a do-element
+                if self.pure: raise NotPure()
+                c = self.strip(args[0])
+                tmp = self.tmp('v')
+                rt = TVar()
+                self.eff += 1
+                self.emit('let %s ← match %s with' % (tmp, get()))
+                self.push()
+                self.depth += 1
+                try:
+                    p = self.pat(c.params[0][0], el)
+                    self.emit('  | some %s =>' % par(p))
+                    self.ind += 4
+                    t, ty = self.ex(c.body)
+                    unify(rt, ty)
+                    if t is not None:
+                        self.emit('pure (some %s)' % par(t))
+                    self.ind -= 4
+                finally:
+                    self.depth -= 1
+                    self.pop()
+                self.emit('  | none => pure none')
+                return tmp, ('opt', rt)
             if name == 'map':
                 f, ft = self.fn_arg(args[0], [el], e.line)
                 return '%s.map %s' % (par(get()), par(f)), ('opt', ft[2])
@@ -131,6 +214,11 @@ class MethodMixin:
         # ---- Result
         if tag == 'result':
             if name == 'unwrap' or name == 'expect': return self.m('Rust.unwrapR %s' % par(get())), rty[1]
+            if name == 'map_err':
+                f, ft = self.fn_arg(args[0], [rty[2]], e.line)
+                return 'Except.mapError %s %s' % (par(f), par(get())), ('result', rty[1], ft[2])
+            if name == 'ok' and not args:
+                return '%s.toOption' % par(get()), ('opt', rty[1])
             if name == 'is_ok': return par(get()) + '.isOk', BOOL
             if name == 'is_err': return '!' + par(get()) + '.isOk', BOOL
         # ---- Vec / slice / materialised iterator
@@ -141,6 +229,9 @@ class MethodMixin:
                 ot = res(ot)
                 if isinstance(ot, TVar) or ot[0] not in ('vec', 'iter'): self.fail('zip with %r' % (ot,), e.line)
                 return '%s.zip %s' % (par(get()), par(o)), ('iter', ('tuple', (el, ot[1])))
+            if name == 'collect' and res(el) == ('char',) and ((want is not None and res(want) == STR) or
+                                                                (e.generics and e.generics[0].kind == 'TPath' and e.generics[0].segs[-1][0] == 'String')):
+                return 'String.ofList %s.toList' % par(get()), STR
             if name == 'collect':
                 g = e.generics[0] if e.generics else None
                 w = res(want) if want is not None else None
@@ -162,6 +253,12 @@ class MethodMixin:
             if name == 'is_empty': return par(get()) + '.isEmpty', BOOL
             if name == 'last': return par(get()) + '.back?', ('opt', el)
             if name == 'first': return par(get()) + '[0]?', ('opt', el)
+            if name == 'position':
+                f, ft = self.fn_arg(args[0], [el], e.line)
+                return '%s.findIdx? %s' % (par(get()), par(f)), ('opt', INT('usize'))
+            if name == 'collect' and res(el) == ('char',) and ((want is not None and res(want) == STR) or
+                                                                (e.generics and e.generics[0].kind == 'TPath' and e.generics[0].segs[-1][0] == 'String')):
+                return 'String.ofList %s.toList' % par(get()), STR
             if name == 'get':
                 i, _ = arg(0)
                 return '%s[%s]?' % (par(get()), i), ('opt', el)
@@ -253,6 +350,15 @@ class MethodMixin:
                 pl.set('%s.insert %s' % (par(pl.get()), par(k)))
                 return '()', UNIT
         # ---- std::io through the scripted devices of Gen/RustShimIO.lean
+        if tag == 'reader' and name == 'read_to_string' and pl is not None and len(args) == 1:
+            bp = self.try_place(args[0])
+            if bp is None or res(bp.ty) != STR: self.fail('read_to_string needs a `&mut String` place', e.line)
+            r, rd, bf = self.tmp('res'), self.tmp('rd'), self.tmp('str')
+            self.emit('let (%s, %s, %s) := Rust.readToString %s %s' % (r, rd, bf, par(pl.get()), par(bp.get())))
+            pl._cache = None; bp._cache = None
+            pl.set(rd)
+            bp.set(bf)
+            return r, ('result', INT('usize'), ('ioerr',))
         if tag == 'reader' and name == 'read_exact' and pl is not None and len(args) == 1:
             bp = self.try_place(args[0])
             if bp is None: self.fail('read_exact needs a `&mut buf` place', e.line)
